@@ -45,6 +45,7 @@ FIXED = [
     ("HALFBUILT", ["C05", "C11"], "1145371", "a failed ItemSpace construction stayed registered in its base's dynamic-space list; the next namespace change raised AttributeError 'argvalues_if'"),
     ("C04-NEWREF", ["C04", "C11"], "d3e60d4", "a model whose sub space was created before its base and overrides a reference was written without error but read_model raised 'Cannot create reference'; new_ref looked at the first sub space only"),
     ("C14-X", ["C14"], "a6ca415", "a zip save whose temporary directory is on another file system was copied onto the destination: a fault during the copy left a truncated archive at the path"),
+    ("DD", ["C07", "C13", "C02"], "98f7b78", "deleting a parametrised space left its ItemSpaces alive (old handles answered and computed); renaming a space named as `base` by another space's formula kept the instances built from it"),
     ("M", ["C15"], "b10cccc", "export: names in a comprehension following a nested class/def scope were not rewritten to self.<name> (NameError in the package)"),
     ("N", ["C17"], "c0724cd", "nodes rolled back by a failure a formula handled leaked into the next traceback"),
     ("O", ["C04"], "14fa167", "`_is_cached = False` of a lambda-defined cells was written but not read back"),
